@@ -133,11 +133,16 @@ class Ctx:
         # defects that also show where no panic was injected / no clear was made are not the panic's
         # (the clear's) doing: they belong to the property whose predicate it is, not to C18 (C12)
         plain_fault = {x["tag"] for x in v["viols"] if not after(x, '"out":"unwound"')}
+        # the post-panic predicates have panic-free counterparts: a tree that is already invalid, leaky
+        # or wrong before any panic is not torn BY the panic
+        plain_fault |= {t for t, base in (("TORNWF", "WF"), ("TORNPOOL", "POOL"), ("TORN", "REFINE"), ("TORN", "KEEP"), ("TORN", "COMPLETE")) if base in plain_fault}
         plain_twin = {x["tag"] for x in v["viols"] if not after(x, '"op":"clear"')}
         for x in v["viols"]:
             seg = x["seg"]
             first_viol_in_segment.setdefault(seg, x["l"])
             ids = set(tagmap.get(x["tag"], []))
+            if x["tag"] in ("TORN", "TORNWF", "TORNPOOL") and x["tag"] in plain_fault:
+                ids.discard("C18")
             # context: after an injected panic a later defect of the same segment is a C18 matter,
             # after a clear a later wrong result of the same segment is a C12 matter
             if "fault" in flags and x["tag"] not in plain_fault and after(x, '"out":"unwound"'):
